@@ -41,7 +41,7 @@ var R = hx.NewRecorder("C10", "cases = small PKIs (<=3 roots, <=5 intermediate c
 var cv = rsm2.Std
 
 func TestMain(m *testing.M) {
-	R.Require("cross_signed", "loop", "expired_intermediate", "pathlen_violation", "forged_sig", "nonCA_intermediate", "name_constraint_fail", "name_constraint_fail_mixed_forms", "critical_san_uri_only", "intermediate_critical_ext", "uninterpreted_san:critical=true", "wildcard", "ip_san", "accept", "reject", "self_issued", "leaf_in_roots", "eku_reject", "critical_ext")
+	R.Require("cross_signed", "loop", "expired_intermediate", "pathlen_violation", "forged_sig", "nonCA_intermediate", "name_constraint_fail", "name_constraint_fail_mixed_forms", "critical_san_uri_only", "forged_twin_after_genuine", "intermediate_critical_ext", "uninterpreted_san:critical=true", "wildcard", "ip_san", "accept", "reject", "self_issued", "leaf_in_roots", "eku_reject", "critical_ext")
 	hx.Main(m, R)
 }
 
@@ -873,6 +873,24 @@ func checkVerify(t *rapid.T, p *pki, q query) {
 		cls = append(cls, "reject", "rej:"+strings.Fields(why)[0])
 	default:
 		cls = append(cls, "unspecified:"+why)
+	}
+	if err == nil {
+		// history on the SAME pool objects: a twin of the leaf - same issuer, serial and contents, one bit of its signature
+		// changed - presented right after the genuine one was accepted. Whatever the pools remember about the first
+		// verification must not vouch for the second.
+		twinDER := append([]byte{}, p.leaf.cert.Raw...)
+		twinDER[len(twinDER)-1] ^= 0x01
+		if twin, perr := gx.ParseCertificate(twinDER); perr == nil {
+			var tch [][]*gx.Certificate
+			var terr error
+			if pn := hx.Try(func() { tch, terr = twin.Verify(opts) }); pn != nil {
+				t.Fatalf("Verify panicked on the forged twin: %v", pn.Val)
+			}
+			if terr == nil {
+				t.Fatalf("Verify ACCEPTED (%d chains) a twin of the leaf whose signature was altered, right after verifying the genuine leaf against the same pools\n%s", len(tch), desc())
+			}
+			cls = append(cls, "forged_twin_after_genuine")
+		}
 	}
 	if p.leaf.critExt {
 		cls = append(cls, "critical_ext")
